@@ -5,11 +5,12 @@ from vlib import gocheck
 def main():
     groups = [dict(pkg='compiler/internal/semantics/typechecker', rel='internal/semantics/typechecker', harnesses=['HarnessC06Mutability'], max_paths=100000),
               dict(pkg='compiler/internal/verifrt/fe', rel='internal/verifrt/fe', harnesses=['HarnessC06Bindings'], max_paths=100000),
-              dict(pkg='compiler/internal/verifrt/fe', rel='internal/verifrt/fe', harnesses=['HarnessC06Receivers'], max_paths=100000)]
+              dict(pkg='compiler/internal/verifrt/fe', rel='internal/verifrt/fe', harnesses=['HarnessC06Receivers'], max_paths=100000),
+              dict(pkg='compiler/internal/verifrt/fe', rel='internal/verifrt/fe', harnesses=['HarnessC06FnTypes'], max_paths=100000)]
     rc = gocheck.run('C06', 'other', groups, gocheck.GOSYM_ASSUME + [
         'the front-end harness (HarnessC06Bindings) assembles small programs from symbolic choices (binding kind x iterable x mutation form x context) and runs the REAL lexer, parser, collector, resolver and type checker on them inside the symbolic interpreter: the program space is the product listed in the explanation, nothing beyond it',
         'NOT decided: mutation forms and contexts outside the listed product (e.g. nested closures, multi-module programs, interface method calls), and what generated code does with an accepted program',
-    ], 'FRONT END (HarnessC06Bindings): for every combination of binding {index of a two-variable for loop over [N]T / []T / str / map / range, const, catch error variable, field behind an &P parameter, field behind an & receiver, let, field behind an &\'P parameter} x mutation form {=, +=, ++, --, let p: &\'T = &\'x, f(&\'x)} x context {function body, if, while, match arm, function literal} the real front end must report an error on the mutating line for the immutable bindings and accept the mutable ones. FRONT END (HarnessC06Receivers): struct-typed place {const, element of a const array, field of a const, value behind an &P parameter / &P receiver / &P local, struct field of type &P | let, element of a let array, &\'P parameter, &\'P local} x mutation form {call of a method with a &\' receiver (with and without arguments), field =, field +=, field ++, &\' of a field, field passed to a &\' parameter, &\' of the value} x the same five contexts: error on the mutating line for the immutable places, accepted for the mutable ones. KERNEL: PARTIAL (kernel): checkMutability and reportMutabilityError are executed from their SSA on place expressions c, (c), c.X, c[0], c.In.X, c[0].X ... (chains of depth <= 2, chosen symbolically) whose root symbol has a symbolic kind (variable, constant, parameter, receiver), read-only flag and type (T, &T, &\'T; struct or array of structs): a constant, read-only or &T root must be refused with an error diagnostic whatever the access path; a plain mutable variable must not be refused.')
+    ], 'FRONT END (HarnessC06Bindings): for every combination of binding {index of a two-variable for loop over [N]T / []T / str / map / range, const, catch error variable, field behind an &P parameter, field behind an & receiver, let, field behind an &\'P parameter} x mutation form {=, +=, ++, --, let p: &\'T = &\'x, f(&\'x)} x context {function body, if, while, match arm, function literal} the real front end must report an error on the mutating line for the immutable bindings and accept the mutable ones. FRONT END (HarnessC06Receivers): struct-typed place {const, element of a const array, field of a const, value behind an &P parameter / &P receiver / &P local, struct field of type &P | let, element of a let array, &\'P parameter, &\'P local} x mutation form {call of a method with a &\' receiver (with and without arguments), field =, field +=, field ++, &\' of a field, field passed to a &\' parameter, &\' of the value} x the same five contexts: error on the mutating line for the immutable places, accepted for the mutable ones. FRONT END (HarnessC06FnTypes): a function / function literal with a &\'P parameter that writes through it, supplied where fn(q: &P) is expected {argument, annotated let, assignment, struct field initialiser, return value, field assignment}: rejected; exactly matching function types accepted. KERNEL: PARTIAL (kernel): checkMutability and reportMutabilityError are executed from their SSA on place expressions c, (c), c.X, c[0], c.In.X, c[0].X ... (chains of depth <= 2, chosen symbolically) whose root symbol has a symbolic kind (variable, constant, parameter, receiver), read-only flag and type (T, &T, &\'T; struct or array of structs): a constant, read-only or &T root must be refused with an error diagnostic whatever the access path; a plain mutable variable must not be refused.')
     sys.exit(rc)
 
 if __name__ == '__main__':
